@@ -945,9 +945,12 @@ def gen_scenarios(tier, seed, alpha, log):
     tpool = [c for c in alpha if c['cut'] == 'none' and c['size'] not in ('big', 'huge')]
     for i in range(ntrunc):
         n[0] += 1
-        script = sample_script(rng, tpool, rng.randint(2, 3))
-        tr = truncations('p%05d' % n[0], seed * 1000003 + n[0], script, every=1, probe=copy.deepcopy(PROBE),
-                         conf_over=dict(body_c=16, body_big=40, body_max=80, shortkeys=True))
+        for attempt in range(50):
+            script = sample_script(rng, tpool, rng.randint(2, 3))
+            tr = truncations('p%05d' % n[0], seed * 1000003 + n[0], script, every=1, probe=copy.deepcopy(PROBE),
+                             conf_over=dict(body_c=16, body_big=40, body_max=80, shortkeys=True))
+            if 30 <= len(tr) <= (140 if tier == 'quick' else 400) and any(c['verb'] in STORE for c in script):
+                break
         scen += tr
     n[0] += 1
     scen.append(roundtrip_scenario('p%05d' % n[0], random.Random(seed + 99)))
@@ -1020,6 +1023,15 @@ def run(pid, tier, seed, work, log, replay=None):
                     if f.endswith('.json'):
                         scen.append(json.load(open(os.path.join(fixed, f))))
     log('%d scenarios' % len(scen))
+    # the Hang deadline (the only place where time enters) is stretched when the machine is overloaded
+    try:
+        factor = min(6.0, max(1.0, os.getloadavg()[0] / V.NCPU))
+    except OSError:
+        factor = 1.0
+    if factor > 1.0 and not replay:
+        for s in scen:
+            s['conf']['deadline_ms'] = int(s['conf'].get('deadline_ms', 10000) * factor)
+        log('load factor %.1f: Hang deadline %.0f s' % (factor, 10 * factor))
     tb = V.build_harness(work, 'gobeansdb')
     traces = execute(tb, scen, work, log)
     missing = [s['id'] for s in scen if s['id'] not in traces]
